@@ -1,4 +1,5 @@
 import Nri.Model.TopoAware
+import Nri.Gen.TAPinFacts
 import Nri.Proofs.TopoAware
 import Nri.Gen.TAFacts
 /-!
@@ -102,5 +103,95 @@ def exTree : List PoolT :=
 example : (match alloc (initTA exTree) "c1" 0 2 0 false .normal [0, 1] with
     | .ok (t', g) => g.exclusive == [0, 1] && (t'.pools 2).sharable == [2, 3, 4, 5, 6] && (t'.pools 0).sharable == [2, 3]
     | .error _ => false) = true := by decide
+
+end Nri.TA
+
+/-! ### clause (b): the cpuset told for a container avoids every other container's exclusive CPUs -/
+namespace Nri.TA
+
+theorem pairwise_sym_forall {α : Type} (R : α → α → Prop) (hs : ∀ a b, R a b → R b a) (l : List α)
+    (h : l.Pairwise R) : ∀ a ∈ l, ∀ b ∈ l, a ≠ b → R a b := by
+  induction l with
+  | nil => intro a ha; cases ha
+  | cons x xs ih =>
+    rw [List.pairwise_cons] at h
+    intro a ha b hb hab
+    rcases List.mem_cons.mp ha with rfl | ha' <;> rcases List.mem_cons.mp hb with rfl | hb'
+    · exact absurd rfl hab
+    · exact h.1 b hb'
+    · exact hs _ _ (h.1 a ha')
+    · exact ih h.2 a ha' b hb' hab
+
+/-- **C01 (b), for every reachable accounting state**: the cpuset that `applyGrant` /
+`updateSharedAllocations` compute for a normal-class grant (its pool's free sharable set, its own
+exclusive CPUs, or both) contains no CPU that is exclusively granted to another container -/
+theorem pin_avoids_exclusive (tree : List PoolT) (hwf : TreeWF tree) (ops : List Op) :
+    let t := ops.foldl stepOp (initTA tree)
+    ∀ g ∈ t.grants, g.cpuType = .normal → g.pool < t.tree.length → ∀ w, pinOf t g = some w →
+    ∀ g' ∈ t.grants, g' ≠ g → ∀ x, x ∈ w → x ∉ g'.exclusive := by
+  intro t g hg hn hp w hw g' hg' hne x hx hx'
+  have hinv := exclusive_always tree hwf ops
+  have hdis := pairwise_sym_forall (fun (a b : Grant) => ∀ x, x ∈ a.exclusive → x ∉ b.exclusive)
+    (fun a b h x hb ha => h x ha hb) _ hinv.disjoint g' hg' g hg hne
+  have hfree := (hinv.notFree g' hg' g.pool hp x hx').2
+  simp only [pinOf, hn] at hw
+  split at hw
+  · simp only [Option.some.injEq] at hw; subst hw; exact hfree hx
+  · split at hw
+    · simp only [Option.some.injEq] at hw; subst hw
+      rcases (mem_uni _ _ _).mp hx with h | h
+      · exact hdis x hx' h
+      · exact hfree h
+    · simp only [Option.some.injEq] at hw; subst hw
+      exact hdis x hx' hx
+
+/-- the grants `updateSharedAllocations` skips are exactly those whose pin does not depend on the pools'
+free sets (reserved-class: the pool's reserved CPUs; purely exclusive: its own CPUs; preserve: none), so
+skipping them never leaves a stale cpuset behind -/
+theorem skipped_pin_is_stable (t t' : TA) (g : Grant) (htree : t.tree = t'.tree) (hs : refreshed g = false) :
+    pinOf t g = pinOf t' g := by
+  unfold refreshed at hs
+  unfold pinOf
+  cases hct : g.cpuType with
+  | reserved => simp only [htree]
+  | preserve => rfl
+  | normal =>
+    simp only [hct, beq_self_eq_true, Bool.true_and, Bool.not_eq_false', Bool.and_eq_true, beq_iff_eq,
+      Bool.not_eq_true'] at hs
+    have he : g.exclusive.isEmpty = false := by simpa using hs.2
+    have hp : ¬ g.portion > 0 := by omega
+    simp only [he, Bool.false_eq_true, if_false, hp]
+
+-- non-vacuity: after a shared grant at socket #0 and an exclusive one at the root, the shared container's
+-- pin is the socket's remaining sharable set and avoids the exclusive CPUs
+example :
+    let t := [Op.alloc "a" 0 0 500 false .normal [], Op.alloc "b" 2 2 0 false .normal [0, 1]].foldl stepOp (initTA exTree)
+    t.grants.map (fun g => (g.ctr, pinOf t g)) = [("a", some [2, 3]), ("b", some [0, 1])] := by decide
+
+end Nri.TA
+
+/-! ### source shapes the model was written against (TAPinFacts.lean; the regenerated facts must equal them) -/
+namespace Nri.TA.Expectgen_ta_pin_facts_ok
+def applyGrantCpus : List String := ["exclusive := grant.ExclusiveCPUs()", "reserved := grant.ReservedCPUs()", "shared := grant.SharedCPUs()", "cpuPortion := grant.SharedPortion()", "cpus := cpuset.New()", "switch cpuType", "> case cpuNormal", "> > if exclusive.IsEmpty()", "> > > cpus = shared", "> > else", "> > > if cpuPortion > 0", "> > > > cpus = exclusive.Union(shared)", "> > > else", "> > > > cpus = exclusive", "> case cpuReserved", "> > cpus = reserved", "> > cpuPortion = grant.ReservedPortion()", "> default", "> > return", "if opt.PinCPU", "> if cpuType == cpuPreserve", "> else", "> > if cpus.Size() > 0", "> > > p.setPreferredCpusetCpus(container, cpus, fmt.Sprintf(…)", "> > else", "> > > container.SetCpusetCpus(\"\")"]
+def updateShared : List String := ["if grant != nil", "> if (*grant).CPUType() == cpuReserved", "> > return", "else", "range p.allocations.grants", "> if grant != nil", "> > if other.GetContainer().GetID() == (*grant).GetContainer().GetID()", "> > > continue", "> if other.CPUType() == cpuReserved", "> > continue", "> if other.CPUType() == cpuPreserve", "> > continue", "> if other.SharedPortion() == 0 && !other.ExclusiveCPUs().IsEmpty()", "> > continue", "> if opt.PinCPU", "> > shared := other.GetCPUNode().FreeSupply().SharableCPUs()", "> > exclusive := other.ExclusiveCPUs()", "> > if exclusive.IsEmpty()", "> > > p.setPreferredCpusetCpus(other.GetContainer(), shared, fmt.Sprintf(…)", "> > else", "> > > p.setPreferredCpusetCpus(other.GetContainer(), exclusive.Union(shared), fmt.Sprintf(…)"]
+def setPreferred : List String := ["allow := allocated", "if ok && hideHyperthreadsPreference(pod, container)", "> allow = p.sys.SingleThreadForCPUs(allocated)", "> if allow.Size() != allocated.Size()", "> else", "container.SetCpusetCpus(allow.String())"]
+def grantSharedCPUs : List String := ["return cg.node.FreeSupply().SharableCPUs()"]
+def grantReservedCPUs : List String := ["return cg.node.GetSupply().ReservedCPUs()"]
+def grantExclusiveCPUs : List String := ["return cg.exclusive"]
+def grantSharedPortion : List String := ["if cg.cpuType == cpuNormal", "> return cg.cpuPortion", "return 0"]
+end Nri.TA.Expectgen_ta_pin_facts_ok
+
+namespace Nri.TA
+
+/-- the regenerated skeletons of applyGrant's cpuset computation (by grant class), of updateSharedAllocations' skip rules and re-pinning, of setPreferredCpusetCpus and of the grant accessors are the ones pinOf / refreshed follow -/
+theorem gen_ta_pin_facts_ok :
+    Nri.Gen.TAPin.applyGrantCpus = Expectgen_ta_pin_facts_ok.applyGrantCpus ∧
+    Nri.Gen.TAPin.updateShared = Expectgen_ta_pin_facts_ok.updateShared ∧
+    Nri.Gen.TAPin.setPreferred = Expectgen_ta_pin_facts_ok.setPreferred ∧
+    Nri.Gen.TAPin.grantSharedCPUs = Expectgen_ta_pin_facts_ok.grantSharedCPUs ∧
+    Nri.Gen.TAPin.grantReservedCPUs = Expectgen_ta_pin_facts_ok.grantReservedCPUs ∧
+    Nri.Gen.TAPin.grantExclusiveCPUs = Expectgen_ta_pin_facts_ok.grantExclusiveCPUs ∧
+    Nri.Gen.TAPin.grantSharedPortion = Expectgen_ta_pin_facts_ok.grantSharedPortion := by
+  and_intros <;> rfl
 
 end Nri.TA
